@@ -17,7 +17,7 @@ Definition os_cooperates (f : flags) (w : world) : Prop :=
   match output_mode_of f with
   | ORun => w_lua_found w = true
   | OStdout => True
-  | OFile _ => w_create w = CreateOk /\ forall e, w_write w <> WriteFails e
+  | OFile _ => w_create w = CreateOk /\ w_write w = WroteAll
   end.
 
 (* the compiler never returns Err(vec![]) *)
@@ -76,7 +76,7 @@ Theorem exit_zero_iff_full : forall f w, compiles_something f ->
         match output_mode_of f with
         | ORun => w_lua_found w = true /\ c_stderr (w_child w bytes) = ""
         | OStdout => True
-        | OFile _ => w_create w = CreateOk /\ forall e, w_write w <> WriteFails e
+        | OFile _ => w_create w = CreateOk /\ w_write w = WroteAll
         end).
 Proof.
   intros f w [Hh Ha]. unfold main, run_file. rewrite Hh.
@@ -102,9 +102,8 @@ Proof.
   - destruct (w_compile w) as [bytes|es] eqn:Hc.
     + destruct (w_create w) eqn:Hcr.
       * destruct (w_write w) eqn:Hw; cbn.
-        -- split; [intros _|reflexivity]. right. exists bytes. repeat split; auto; discriminate.
-        -- split; [intros _|reflexivity]. right. exists bytes. repeat split; auto; discriminate.
-        -- split; [discriminate|]. intros [[H _]|[b [_ [_ H]]]]; [discriminate|]. exfalso. eapply H. reflexivity.
+        -- split; [intros _|reflexivity]. right. exists bytes. auto.
+        -- split; [discriminate|]. intros [[H _]|[b [_ [_ H]]]]; discriminate.
       * cbn. split; [discriminate|]. intros [[H _]|[b [_ [H _]]]]; discriminate.
     + destruct es as [|e es]; cbn.
       * split; [intros _|reflexivity]. left. split; [reflexivity|discriminate].
@@ -265,16 +264,15 @@ Proof.
   destruct (output_mode_of f) eqn:Hmo; [| |exfalso; eapply Hm; reflexivity]; crunch; cbn; reflexivity.
 Qed.
 
-(* the write is complete or fails cleanly: nothing or everything *)
-Definition write_is_atomic (w : world) : Prop :=
-  (forall n, w_write w <> WroteShort n) /\ (forall e, w_write w <> WriteFails e).
+(* the write does not fail *)
+Definition write_succeeds (w : world) : Prop := forall n e, w_write w <> WriteFails n e.
 
 Theorem o_file_all_or_nothing : forall f w,
-  write_is_atomic w ->
+  write_succeeds w ->
   r_file (main st f w) = Untouched \/
   (exists bytes, w_compile w = COk bytes /\ r_file (main st f w) = Holds bytes /\ r_status (main st f w) = 0%N).
 Proof.
-  intros f w [Hs Hf]. unfold main, run_file.
+  intros f w Hf. unfold main, run_file.
   destruct (f_help f); [auto|]. destruct (f_args f); [auto|].
   destruct (output_mode_of f).
   - crunch; cbn; auto.
@@ -283,29 +281,33 @@ Proof.
     + destruct (w_create w); [|cbn; auto].
       destruct (w_write w) eqn:Hw.
       * cbn. right. exists bytes. auto.
-      * exfalso. eapply Hs. reflexivity.
-      * exfalso. eapply Hf. reflexivity.
+      * exfalso. eapply Hf. exact Hw.
     + crunch; cbn; auto.
 Qed.
 
-(* what the code does when the single `write` is short: status 0 and a truncated program.  (Reproduced on
-   the built binary with `ulimit -f`, see tools/props/c20.py.) *)
-Theorem o_file_short_write_refuted :
-  exists f w bytes, compiles_something f /\ w_compile w = COk bytes /\
-    r_status (main st f w) = 0%N /\ r_file (main st f w) = Holds "ab" /\ bytes = "abc".
+(* with write_all a short write is no longer taken for success: whenever the status is 0 in -o FILE mode,
+   FILE holds the complete program (for every world) *)
+Theorem o_file_status_zero_complete : forall f w p,
+  compiles_something f -> output_mode_of f = OFile p -> errors_nonempty w ->
+  r_status (main st f w) = 0%N ->
+  exists bytes, w_compile w = COk bytes /\ r_file (main st f w) = Holds bytes.
 Proof.
-  exists (mkFlags (Some "out.lua") None false 0 false ["main.sy"]).
-  exists (mkWorld (COk "abc") CreateOk (WroteShort 2) true (fun _ => mkChildOut "" "" 0) "" "").
-  exists "abc". repeat split; try reflexivity. cbn. discriminate.
+  intros f w p [Hh Ha] Hm Hne. unfold main, run_file. rewrite Hh, Hm.
+  destruct (f_args f) as [|a rest]; [congruence|].
+  destruct (w_compile w) as [bytes|es] eqn:Hc.
+  - destruct (w_create w); [|cbn; discriminate].
+    destruct (w_write w); cbn; [|discriminate]. intros _. exists bytes. auto.
+  - destruct es as [|e es]; [exfalso; apply Hne; exact Hc|]. cbn. discriminate.
 Qed.
 
-(* a failing write after a successful create leaves an empty file behind (status 1) *)
+(* a FAILING write after a successful create still leaves FILE neither untouched nor complete (status 1):
+   File::create has truncated it and only what was written before the error is there *)
 Theorem o_file_failed_write_refuted :
   exists f w bytes, compiles_something f /\ w_compile w = COk bytes /\
-    r_status (main st f w) = 1%N /\ r_file (main st f w) = Holds "" /\ bytes = "abc".
+    r_status (main st f w) = 1%N /\ r_file (main st f w) = Holds "a" /\ bytes = "abc".
 Proof.
   exists (mkFlags (Some "out.lua") None false 0 false ["main.sy"]).
-  exists (mkWorld (COk "abc") CreateOk (WriteFails "ENOSPC") true (fun _ => mkChildOut "" "" 0) "" "").
+  exists (mkWorld (COk "abc") CreateOk (WriteFails 1 "ENOSPC") true (fun _ => mkChildOut "" "" 0) "" "").
   exists "abc". repeat split; try reflexivity. cbn. discriminate.
 Qed.
 
